@@ -2,6 +2,7 @@
   LiveP20 — the declarations of Live20.lean that depend on the configuration structures, restated for
   the plan-following configurations (`LivePCfg`, `NcPCfg`, `L7PLib`); the proofs are those of Live20.lean.
 -/
+import TopsimProofs.Fit2
 import TopsimProofs.LiveP17g
 import TopsimProofs.LiveP19
 
@@ -14,7 +15,9 @@ section
 variable {env : SimEnv} {s0 : Sys}
 
 theorem ncOrder_P (N : NcPCfg env s0) : NcOrder env s0 where
-  prov := fun n hc _ _ hpk hpp ha _ _ hk hpc => nc_provIngest_fits_P N n hc hpk hpp ha hk hpc
+  -- F14: from the accounting invariant `sim_fit` (Fit2), no `OneAdmission` hypothesis
+  prov := fun n _ _ _ _ hpp ha _ _ hk hpc =>
+    sim_provIngest_fits env s0 N.hw N.hb0.1 _ (simAt_reach env s0 n) (proc?_some hpp).1 ha hk hpc
   alloc := fun n hc _ _ hpk hpp ha _ _ _ _ _ hk hpc => nc_allocTask_avail_P N n hc hpk hpp ha hk hpc
 
 /-- **No block raises** (queue algorithm; H1: no tiering; H2: one admission per telescope block). -/
